@@ -85,7 +85,7 @@ type c18Op struct {
 }
 
 var c18Ops = []c18Op{
-	{"Add(1)", "add", 1}, {"Add(2)", "add", 2}, {"Add(5)", "add", 5}, {"Add(1e9)", "add", 1e9},
+	{"Add(1)", "add", 1}, {"Add(2)", "add", 2}, {"Add(5)", "add", 5}, {"Add(1e9)", "add", 1e9}, {"Add(0)", "add", 0},
 	{"Get()", "get", 0}, {"Reset()", "reset", 0}, {"Update(identity)", "upd", 1}, {"Update(x0.9)", "upd", 0.9},
 }
 
@@ -108,6 +108,9 @@ func (s *c18State) apply(o c18Op, t *mc.Tr) (ret float64, flag bool) {
 	name := s.k.name
 	before := s.m.Get()
 	s.afterReset = false
+	if o.kind == "add" && o.v == 0 && s.k.fold == "min" {
+		return 0, false // MinimumMeasurement encodes "no sample yet" as 0 (its documented use is RTTs > 0)
+	}
 	switch o.kind {
 	case "add":
 		ret, flag = s.m.Add(o.v)
@@ -203,7 +206,7 @@ func minInt(a, b int) int {
 func c18Model(k c18Kind) *mc.Model {
 	return &mc.Model{
 		Name:   "C18/" + k.name,
-		Params: "ops Add{1,2,5,1e9} Get Reset Update{identity,x0.9}",
+		Params: "ops Add{0,1,2,5,1e9} Get Reset Update{identity,x0.9}",
 		New:    func(t *mc.Tr) any { return &c18State{k: k, m: k.mk(), pureAdds: true} },
 		Ops: func(any) []string {
 			var out []string
